@@ -10,7 +10,7 @@ ASSUMPTIONS = ['live SQLite (in-memory) with foreign keys enforced immediately',
 SHARDS = {'quick': 4, 'thorough': 16}
 MIN_EVALS = {'quick': 400, 'thorough': 5000}
 PROPS = {'C11'}
-WEIGHTS = {'ident': 8, 'read': 6}
+WEIGHTS = {'ident': 8, 'read': 6, 'rekey': 5}
 
 run = sesscheck.make_run(ID, PROPS, 500, 6000, weights=WEIGHTS,
                          nontrivial=lambda program, stats: stats.get('op:ident', 0) > 0 and (stats.get('op:del', 0) + stats.get('op:set', 0) + stats.get('op:setm', 0)) > 0)
